@@ -121,12 +121,5 @@ MANIFEST = dict(
                 "arith_roundtrip: from_arith(to_arith e) has the same width and value for well-typed add/sub/mul/shift trees whose operand extension chains are of one kind. "
                 "Tie to /repo: rule patterns compared with create_rewrites() on every run (a changed/added rule is a diff), side conditions compared on all assignments "
                 "up to 6/8 bits, instantiation + real from_arith + real eval_expr on all assignments up to 4/5 bits x all operand values (<= 12 bits)."),
-    level_note=("A repair of the two u32-overflow findings is provided (patches/0016-fix-egraph-rules-derived-width-fits-u32.diff: checked arithmetic in the side "
-                "conditions, which then also require the derived right-hand-side width to fit a u32) with the model variant rules_v Fix and the full-strength theorems "
-                "rule_{merge_left_shift,unmerge_left_shift,left_shift_mult}_sound_fixed; driver constant rules_variant (ocaml/driver/c19.ml). "
-                "A repair of the first finding is provided (patches/0001-fix-to_arith-mixed-extension-chain.diff) together with the model variant Fix and the "
-                "UNRESTRICTED round-trip theorem arith_roundtrip_fixed; the driver constant code_variant (ocaml/driver/c19.ml) selects Cur (shipped) or Fix. "
-                "Three recorded findings: to_arith keeps only the outermost extension kind (mixed zext/sext chains change value), and the derived right-hand-side widths "
-                "of merge-/unmerge-left-shift can overflow u32 at widths near 2^32 (panic in checked builds). The two shift-merge theorems therefore carry a "
-                "'derived width fits u32' hypothesis; each finding has a _refuted witness. Trusted: Coq kernel; hand-written model tied by differential execution."),
+    level_note="Trusted: Coq kernel; egg's e-matching is not modelled (rules are (pattern, condition, right-hand side) tables read from the code); hand-written model tied by differential execution. Repaired in /repo through this check: to_arith lost mixed extension chains (6b744e8), two u32 overflows of derived widths (df52fbe; rules_variant = Fix). The overflow witnesses stay as theorems about the old code. No open finding.",
 )
